@@ -11,7 +11,8 @@ def run(ctx):
     q = ctx.quick()
     opts = [dict(shards=0, watchwithoutclass=True), dict(shards=0, watchwithoutclass=True, defaultsvc="d/s2"),
             dict(shards=3, watchwithoutclass=True)]
-    hs = ctl.tlc_histories(ctx, 400 if q else 8000, maxops=3, maxbatches=2, tag="sim", opts=opts, secvals=("absent", "v1", "bad"))
+    hs = ctl.tlc_histories(ctx, 500 if q else 8000, maxops=3, maxbatches=2, tag="sim", opts=opts, secvals=("absent", "v1", "bad"), tmpls=U.CORE_ROUTING,
+                           epsids=("e0", "e1", "e2", "e4", "e5"))
     # half of the histories run with drain-support: not-ready endpoints become weight-0 servers
     for i, h in enumerate(hs):
         if i % 2 == 0:
